@@ -412,11 +412,18 @@ class MappingCheckOnly(DeserializationMethod):
             raise bad_type(data, dict)
         item_errors: Optional[ErrorDict] = None
         for key, value in data.items():
+            item_error: Optional[ValidationError] = None
             try:
                 self.key_method.deserialize(key)
+            except ValidationError as err:
+                item_error = err
+            try:
                 self.value_method.deserialize(value)
             except ValidationError as err:
-                item_errors = set_child_error(item_errors, key, err)
+                # an invalid key doesn't hide the errors of its value
+                item_error = merge_errors(item_error, err)
+            if item_error is not None:
+                item_errors = set_child_error(item_errors, key, item_error)
         validate_constraints(data, self.constraints, item_errors)
         return data
 
@@ -433,12 +440,21 @@ class MappingMethod(DeserializationMethod):
         item_errors: Optional[ErrorDict] = None
         items: dict = {}
         for key, value in data.items():
+            item_error: Optional[ValidationError] = None
+            # deserialize key first, as MappingCheckOnly does (no_copy option)
             try:
-                # deserialize key first, as MappingCheckOnly does (no_copy option)
                 deserialized_key = self.key_method.deserialize(key)
-                items[deserialized_key] = self.value_method.deserialize(value)
             except ValidationError as err:
-                item_errors = set_child_error(item_errors, key, err)
+                item_error = err
+            try:
+                deserialized_value = self.value_method.deserialize(value)
+            except ValidationError as err:
+                # an invalid key doesn't hide the errors of its value
+                item_error = merge_errors(item_error, err)
+            if item_error is None:
+                items[deserialized_key] = deserialized_value
+            else:
+                item_errors = set_child_error(item_errors, key, item_error)
         validate_constraints(data, self.constraints, item_errors)
         return items
 
